@@ -52,7 +52,9 @@ var verifC27PlainKeys = []string{"Type", "Version", "NoDisplay", "Icon", "Hidden
 	"StartupNotify", "StartupWMClass", "PrefersNonDefaultGPU", "SingleMainWindow", "X-Ayatana-Desktop-Shortcuts", "TargetEnvironment"}
 var verifC27LocaleKeys = []string{"Name", "GenericName", "Comment", "Keywords"}
 
-func verifC27IsSpace(b byte) bool { return b == ' ' || b == '\t' || b == '\n' || b == '\f' || b == '\r' }
+func verifC27IsSpace(b byte) bool {
+	return b == ' ' || b == '\t' || b == '\n' || b == '\f' || b == '\r'
+}
 
 func verifC27All(s string, ok func(b byte) bool) bool {
 	for i := 0; i < len(s); i++ {
@@ -384,8 +386,11 @@ func verifC27Suspect(line string) bool {
 	if !strings.HasPrefix(line, "Icon=") {
 		return false
 	}
-	v := strings.TrimPrefix(line[len("Icon="):], "${SNAP}/")
-	return strings.Contains(v, "${SNAP}")
+	v := line[len("Icon="):]
+	if strings.HasPrefix(v, "${SNAP}/") {
+		return strings.Contains(v[len("${SNAP}/"):], "${SNAP}") // passes as a path, a later ${SNAP} is expanded afterwards
+	}
+	return !strings.Contains(v, "/") && strings.Contains(v, "${SNAP}") // passes as a theme name, ${SNAP} is expanded afterwards
 }
 
 // verifC27Class attributes a failing file to the class iff all its problems are icon-outside problems
@@ -406,7 +411,11 @@ func (e *verifC27Env) classOf(c verifC27Case, probs []string) string {
 	if len(reduced) == len(c.Lines) {
 		return ""
 	}
-	out := string(sanitizeDesktopFile(e.info, e.desktopFile, []byte(strings.Join(reduced, "\n")+"\n")))
+	raw := ""
+	if len(reduced) > 0 {
+		raw = strings.Join(reduced, "\n") + "\n"
+	}
+	out := string(sanitizeDesktopFile(e.info, e.desktopFile, []byte(raw)))
 	if rest, _ := e.check(reduced, out); len(rest) > 0 {
 		return ""
 	}
@@ -521,11 +530,12 @@ func TestC27(t *testing.T) {
 		}
 		return res
 	}
-	medium := append(append(append([]string{}, otherLines...), pick(execLines, r.Pick(7, 3))...), pick(iconLines, r.Pick(97, 31))...)
+	medium := append(append(append([]string{}, otherLines...), pick(execLines, r.Pick(3, 1))...), pick(iconLines, r.Pick(31, 41))...)
 	small := []string{"[Desktop Entry]", "[Desktop Action a]", "[Other]", "Name[en]=${SNAP}", "X-Foo-Exec=evil", "X-SnapInstanceName=evil", "Exec=foo.app %U", "Exec=foo.app-evil", "Exec=/bin/sh",
 		"Icon=${SNAP}/x.png", "Icon=${SNAP}/../x.png", "Icon=/etc/x.png", "# c", ""}
+	small = append(small, "Exec=foo", "Exec=foo.ap x", "Icon=snap.foo.x", "Icon=snap.bar.x", "TryExec=x", "[Desktop Entry]\r")
 	if r.Thorough() {
-		small = append(small, "Exec=foo", "Exec=foo.ap x", "Icon=snap.foo.x", "Icon=snap.bar.x", "TryExec=x", "[Desktop Entry]\r")
+		small = append(small, "Exec=foo.app\tevil", "Exec=foo_key.app", "Icon=${SNAP}x", "Icon=x", "Name=x", " [Desktop Entry]", "Exec=foo.app \"q", "Icon=${SNAP}/a/../x")
 	}
 
 	keys := []string{"", "key"}
